@@ -270,6 +270,10 @@ func newExec(t *testing.T) func([]string) string {
 		var calls []string
 		k := 0
 		w.SetSendFn(func(start, n int) (int, error) {
+			if k > 2*len(bufs)+2 {
+				// every call but one either advances or drops at least one entry, and the replay happens once
+				panic("WriteBatch does not terminate: more sendFn calls than 2*len(bufs)+2")
+			}
 			var ents []string
 			for e := start; e < start+n; e++ {
 				bases, ilens, name, control := w.Entry(e)
